@@ -48,7 +48,7 @@ def one(base, tag, d):
         if os.path.exists(os.path.join(src, f)):
             shutil.copy(os.path.join(src, f), os.path.join(dst, f))
     out = {"property": prop, "summary": meta.get("summary"), "needs_to_manifest": meta.get("needs_to_manifest"), "files_touched": meta.get("files_touched"),
-           "author": "independent sub-agent (%s round: given the property texts, the list of earlier seeds to avoid, and a scratch worktree)" % {"r2": "second", "r3": "third"}.get(tag, tag),
+           "author": "independent sub-agent (%s round: given the property texts, the list of earlier seeds to avoid, and a scratch worktree)" % {"r2": "second", "r3": "third", "r4": "fourth"}.get(tag, tag),
            "confirmed_by_lead": {"cmd": "tools/confirm_seed.py" + (" SEED_FEATURES=" + env["SEED_FEATURES"] if "SEED_FEATURES" in env else "") + (" SEED_RUSTFLAGS set" if "SEED_RUSTFLAGS" in env else ""),
                                  "confirmed": confirmed, "line": conf_line},
            "checks_run": "tools/mutant.py (quick tier) for " + prop, "result": res_line}
